@@ -27,6 +27,7 @@ import (
 	"net/url"
 	"os"
 	"os/exec"
+	"path/filepath"
 	"reflect"
 	"runtime"
 	"sort"
@@ -37,6 +38,7 @@ import (
 	"time"
 
 	res "github.com/jirenius/go-res"
+	"github.com/jirenius/go-res/logger"
 	"github.com/jirenius/go-res/verifhook"
 	nats "github.com/nats-io/nats.go"
 
@@ -125,6 +127,9 @@ type desc struct {
 	Held     int          `json:"held,omitempty"`  // flood: reqs[:held] are stopped in their handlers (one per worker) while reqs[held:held+flood] are delivered
 	Flood    int          `json:"flood,omitempty"` // flood: the rest, reqs[held+flood:], is sent after release and quiescence
 	Late     int          `json:"late,omitempty"`
+	Logger   string       `json:"logger,omitempty"`   // "" = SetLogger(nil) | mem = logger.NewMemLogger() | std = logger.NewStdLogger()
+	OnError  bool         `json:"on_error,omitempty"` // SetOnError(callback)
+	cfgSet   bool         // the generator chose logger / OnError itself
 	Burst    int          `json:"burst,omitempty"`           // flood on ONE resource: size of the burst (first request held, the others queued behind it)
 	Lookups  int          `json:"lookups,omitempty"`         // conc: goroutines calling Service.With / Service.Resource all the time ...
 	LookupPs []string     `json:"lookup_patterns,omitempty"` // ... on fresh names of these patterns (other resources, same token counts)
@@ -155,6 +160,11 @@ func pVal(v Val) string {
 		return "(VList " + List(xs) + ")"
 	case "bad":
 		return "VBad"
+	case "mpanic":
+		// only reached for the Data of an *Error (reply / event positions are printed as a panic, see pAction):
+		// data that panics while being encoded is answered like data that cannot be encoded (fix 689dc02;
+		// before it, the recover path died here)
+		return "VBad"
 	}
 	panic("val kind " + v.K)
 }
@@ -171,6 +181,20 @@ func pv(v *Val) string {
 }
 
 func pAction(a Action) string {
+	if isMPanic(a.V) {
+		switch {
+		case a.Op == "reply" && (a.Kind == "ok" || a.Kind == "model" || a.Kind == "querymodel" || a.Kind == "collection" || a.Kind == "querycollection"):
+			return mpanicAction(a.V.S)
+		case a.Op == "token":
+			return mpanicAction(a.V.S)
+		case a.Op == "event":
+			if reservedEvents[a.S] || !res.VerifIsValidPart(a.S) {
+				return "AEvent " + B(a.S) + " VNull" // the name is rejected before anything is encoded
+			}
+			return mpanicAction(a.V.S)
+		}
+		panic("harness: panicking value in an unsupported position")
+	}
 	switch a.Op {
 	case "reply":
 		var k string
@@ -812,6 +836,41 @@ func (r *recorder) logOf(key string) []string {
 	return append([]string(nil), r.logs[key]...)
 }
 
+// a value whose MarshalJSON panics. json.Marshal lets such a panic through unchanged, so handing the value to
+// a reply / event method is, to the library, a panic with that value at the point where it encodes the value:
+// the case term carries APanic with the corresponding value there (see mpanicAction).
+type panicMarshaler struct{ flavour string }
+
+func (p panicMarshaler) MarshalJSON() ([]byte, error) {
+	switch p.flavour {
+	case "rt":
+		var q *panicMarshaler
+		return []byte(q.flavour), nil // nil dereference: a runtime.Error
+	case "str":
+		panic("marshal: boom")
+	case "err":
+		panic(errors.New("marshal: failed"))
+	default:
+		panic(&res.Error{Code: "marshal.custom", Message: "Custom from MarshalJSON"})
+	}
+}
+
+func mpanicAction(flavour string) string {
+	switch flavour {
+	case "rt":
+		return "APanic (PGoErr " + B(rtText("rt-nilderef")) + ")"
+	case "str":
+		return "APanic (PStr " + B("marshal: boom") + ")"
+	case "err":
+		return "APanic (PGoErr " + B("marshal: failed") + ")"
+	}
+	return "APanic (PErr (RErr " + B("marshal.custom") + " " + B("Custom from MarshalJSON") + " VNull))"
+}
+
+func isMPanic(v *Val) bool { return v != nil && v.K == "mpanic" }
+
+var reservedEvents = map[string]bool{"change": true, "delete": true, "add": true, "remove": true, "patch": true, "reaccess": true, "unsubscribe": true, "query": true}
+
 func goVal(v *Val) interface{} {
 	if v == nil {
 		return nil
@@ -835,12 +894,16 @@ func goVal(v *Val) interface{} {
 		return append([]int{}, v.L...)
 	case "bad":
 		return make(chan int)
+	case "mpanic":
+		return panicMarshaler{v.S}
 	}
 	panic("val")
 }
 
 func valOf(x interface{}) Val {
 	switch v := x.(type) {
+	case panicMarshaler:
+		return Val{K: "mpanic", S: v.flavour}
 	case nil:
 		return Val{K: "null"}
 	case string:
@@ -1143,7 +1206,17 @@ const probeName = "zzprobe"
 
 func buildService(d desc, rec *recorder) *res.Service {
 	s := res.NewService(d.Service)
-	s.SetLogger(nil)
+	switch d.Logger {
+	case "mem":
+		s.SetLogger(logger.NewMemLogger())
+	case "std":
+		s.SetLogger(logger.NewStdLogger())
+	default:
+		s.SetLogger(nil)
+	}
+	if d.OnError {
+		s.SetOnError(func(*res.Service, string) { atomic.AddInt64(&onErrorCalls, 1) })
+	}
 	if d.Workers > 0 {
 		s.SetWorkerCount(d.Workers)
 	}
@@ -1817,6 +1890,7 @@ func runSingle(d desc) (string, []string) {
 }
 
 var lookupsMade int64
+var onErrorCalls int64
 var totalLookups int64
 var concViol []string
 var concViolMu sync.Mutex
@@ -2086,6 +2160,14 @@ func crashedTerms(d desc) []string {
 	return []string{one(d.Req, false)}
 }
 
+// what is stored as a case's description for the multi-request kinds
+func compactDesc(d desc) desc {
+	if d.Kind == "flood" {
+		d.Reqs, d.Patterns = nil, nil
+	}
+	return d
+}
+
 func childMain(file string, from int) {
 	verifhook.SetNote(hub.note)
 	b, err := os.ReadFile(file)
@@ -2099,6 +2181,9 @@ func childMain(file string, from int) {
 	w := bufio.NewWriter(os.Stdout)
 	for i := from; i < len(ds); i++ {
 		r := result{Idx: i}
+		if cur, err := json.Marshal(map[string]interface{}{"index": i, "desc": compactDesc(ds[i])}); err == nil {
+			os.WriteFile(filepath.Join(filepath.Dir(file), "current_case.json"), cur, 0o644)
+		}
 		if ds[i].Kind == "conc" {
 			r.Terms = runConc(ds[i])
 			r.Viol, concViol = concViol, nil
@@ -2163,6 +2248,15 @@ func runAll(prop string, out string, ds []desc) (terms [][]string, crashed []boo
 			crashed[next] = true
 			terms[next] = crashedTerms(ds[next])
 			t := eb.String()
+			at := -1
+			for _, mark := range []string{"fatal error:", "panic:"} {
+				if i := strings.LastIndex(t, mark); i >= 0 && (at < 0 || i < at) {
+					at = i
+				}
+			}
+			if at >= 0 {
+				t = t[at:]
+			}
 			if len(t) > 600 {
 				t = t[:600]
 			}
@@ -2172,6 +2266,7 @@ func runAll(prop string, out string, ds []desc) (terms [][]string, crashed []boo
 		from = next
 	}
 	os.Remove(file)
+	os.Remove(filepath.Join(filepath.Dir(file), "current_case.json"))
 	return
 }
 
@@ -2212,6 +2307,8 @@ func genRErr(r *Rng) *RErr {
 	d := genVal(r, true)
 	if r.Chance(50) {
 		d = &Val{K: "null"}
+	} else if r.Chance(25) {
+		d = &Val{K: "mpanic", S: r.Pick([]string{"rt", "str", "err", "reserr"})} // Data whose MarshalJSON panics
 	}
 	return &RErr{Code: r.Pick([]string{"test.custom", "system.notFound", "system.internalError", "a.b", ""}), Msg: r.Pick([]string{"Custom", "Not found", "", "msg \"q\" <x>"}), Data: *d}
 }
@@ -2352,8 +2449,57 @@ func genScript(r *Rng, kinds []string) []Action {
 
 func pickInt(r *Rng, xs []int) int { return xs[r.Intn(len(xs))] }
 
+// gives one value position of a script (never a get handler's: it also runs behind Value(), where nothing is
+// encoded) a value whose MarshalJSON panics
+func injectMPanic(r *Rng, sc []Action) {
+	var pos []int
+	for i, a := range sc {
+		if a.V != nil && (a.Op == "token" || a.Op == "event" || (a.Op == "reply" && (a.Kind == "ok" || a.Kind == "model" || a.Kind == "querymodel" || a.Kind == "collection" || a.Kind == "querycollection"))) {
+			pos = append(pos, i)
+		}
+	}
+	if len(pos) == 0 {
+		return
+	}
+	sc[pos[r.Intn(len(pos))]].V = &Val{K: "mpanic", S: r.Pick([]string{"rt", "str", "err", "reserr"})}
+}
+
+func injectHandlers(r *Rng, h *Handlers, pct int) {
+	for _, p := range []*[]Action{h.Access, h.New} {
+		if p != nil && r.Chance(pct) {
+			injectMPanic(r, *p)
+		}
+	}
+	for _, m := range []map[string][]Action{h.Call, h.Auth} {
+		keys := make([]string, 0, len(m))
+		for k := range m {
+			keys = append(keys, k)
+		}
+		sort.Strings(keys)
+		for _, k := range keys {
+			if r.Chance(pct) {
+				injectMPanic(r, m[k])
+			}
+		}
+	}
+}
+
 var tokPool = []string{"call", "get", "auth", "access", "set", "new", "model", "a", "42", "x-y", "ping", "event", "conn"}
 var methodPool = []string{"set", "get", "new", "call", "auth", "add", "login", "x"}
+
+func scanMP(scripts ...[]Action) bool {
+	for _, sc := range scripts {
+		for _, a := range sc {
+			if a.E != nil && a.E.Data.K == "mpanic" {
+				return true
+			}
+			if isMPanic(a.V) {
+				return true
+			}
+		}
+	}
+	return false
+}
 
 func scanRT(scripts ...[]Action) bool {
 	for _, sc := range scripts {
@@ -2448,7 +2594,7 @@ func genData(r *Rng, kind string) (ReqData, string) {
 	if has() {
 		d.Header = map[string][]string{}
 		for i := r.Intn(3); i > 0; i-- {
-			k := r.Pick([]string{"Accept", "Cookie", "x-lower", "Origin"})
+			k := r.Pick([]string{"Accept", "Cookie", "x-lower", "Origin", "Host", "X-Forwarded-For"})
 			d.Header[k] = []string{r.Pick([]string{"v", "a=b", ""})}
 			if r.Chance(30) {
 				d.Header[k] = append(d.Header[k], "second")
@@ -2597,6 +2743,7 @@ func genCase(r *Rng, sh shape, prop string, seq int) desc {
 	}
 	h.Call = mk(sh.typ == "call")
 	h.Auth = mk(sh.typ == "auth")
+	injectHandlers(r, &h, 22)
 	pats := []PatternDef{{Pattern: strings.Join(pat, "."), Group: group, H: h}}
 	if optionable(h) && r.Chance(35) {
 		pats[0].Opt = r.Pick([]string{"model", "collection", "resource"})
@@ -2881,6 +3028,104 @@ func genRootCase(r *Rng, prop string, seq, k int) desc {
 	return d
 }
 
+// the error paths (they all end in Service.errorf) under one given service configuration
+func genErrPath(r *Rng, prop string, seq, k int, lg string, onErr bool) desc {
+	typ := []string{"call", "get", "auth", "access"}[k%4]
+	d := genCase(r, shape{typ: typ, mcase: "named", present: true, hpresent: true, pkind: "empty"}, prop, seq)
+	ok := Action{Op: "reply", Kind: "ok", V: &Val{K: "int", I: k}}
+	scripts := [][]Action{
+		{{Op: "panic", Kind: "str", S: "boom"}},
+		{ok, ok},
+		{},
+		{ok, {Op: "panic", Kind: "rt-index"}},
+		{{Op: "panic", Kind: "goerr", S: "failed"}},
+		{ok, {Op: "panic", Kind: "nilerr"}},
+		{{Op: "event", S: "custom", V: &Val{K: "bad"}}, ok},
+		{{Op: "reply", Kind: "ok", V: &Val{K: "bad"}}},
+		{{Op: "panic", Kind: "other", N: 7}},
+		{ok},
+	}
+	sc := scripts[(k/4)%len(scripts)]
+	h := &d.Patterns[0].H
+	switch typ {
+	case "call":
+		h.Call[d.Req.Parts[2]] = sc
+	case "auth":
+		h.Auth[d.Req.Parts[2]] = sc
+	case "get":
+		h.Get = &sc
+	default:
+		h.Access = &sc
+	}
+	if (k/4)%len(scripts) == len(scripts)-1 {
+		d.Req.PKind, d.Req.Payload, d.Req.Data = "bad", badPayloads[k%len(badPayloads)], ReqData{}
+	}
+	d.Logger, d.OnError, d.cfgSet = lg, onErr, true
+	return d
+}
+
+// one field absent or empty while related fields carry look-alike data: the handler must see exactly what was
+// sent, an absent field as its zero value, never a value synthesised from another field
+func genLookalike(r *Rng, prop string, seq, k int) desc {
+	typ := []string{"auth", "call", "access", "get"}[k%4]
+	d := genCase(r, shape{typ: typ, mcase: "named", present: true, hpresent: true, pkind: "partial"}, prop, seq)
+	js := func(v interface{}) string { b, _ := json.Marshal(v); return string(b) }
+	var dt ReqData
+	var parts []string
+	put := func(key, val string) { parts = append(parts, js(key)+":"+val) }
+	hdr := map[string][]string{}
+	for _, hk := range [][2]string{{"Host", "lookalike.example.com"}, {"host", "lower.example.com"}, {"X-Forwarded-For", "203.0.113.7"}, {"X-Real-Ip", "198.51.100.9"},
+		{"Cookie", "cid=fromcookie; token=abc"}, {"Referer", "/from/referer?x=1"}, {"X-Original-Uri", "/orig?q=hdr"}, {"Authorization", "Bearer tok"}} {
+		if r.Chance(55) {
+			hdr[hk[0]] = []string{hk[1]}
+		}
+	}
+	if k%8 < 6 {
+		hdr["Host"] = []string{"lookalike.example.com"}
+	}
+	dt.Header = hdr
+	put("header", js(hdr))
+	// each related field: absent, present but empty, or carrying its own value
+	field := func(name, own string, set func(string)) {
+		switch r.Intn(3) {
+		case 0:
+		case 1:
+			set("")
+			put(name, `""`)
+		default:
+			set(own)
+			put(name, js(own))
+		}
+	}
+	field("host", "real.example.org", func(v string) { dt.Host = v })
+	field("remoteAddr", "192.0.2.1:4000", func(v string) { dt.RemoteAddr = v })
+	field("uri", "/ws?viaUri=1", func(v string) { dt.URI = v })
+	field("query", "own=1", func(v string) { dt.Query = v })
+	field("cid", "owncid", func(v string) { dt.CID = v })
+	switch r.Intn(3) {
+	case 1:
+		dt.Token = `{"cid":"tokencid","host":"token.example"}`
+		put("token", dt.Token)
+	case 2:
+		dt.Token = `null`
+		put("token", dt.Token)
+	}
+	if r.Chance(50) {
+		dt.Params = `{"cid":"paramcid","query":"p=1","host":"params.example"}`
+		put("params", dt.Params)
+	}
+	if r.Chance(50) {
+		dt.IsHTTP = r.Bool()
+		put("isHttp", Bool(dt.IsHTTP))
+	}
+	if n := len(parts); n > 1 {
+		j := r.Intn(n)
+		parts = append(parts[j:], parts[:j]...)
+	}
+	d.Req.PKind, d.Req.Data, d.Req.Payload = "partial", dt, "{"+strings.Join(parts, ",")+"}"
+	return d
+}
+
 // degenerate but deliverable resource names: "<service>.", "<service>..x", "<service>.a.", dots only, empty -
 // with and without method tokens, for named and unnamed services. The subject is still well-formed for
 // handleRequest (type, name, method), so exactly one response is due (normally system.notFound).
@@ -2971,6 +3216,7 @@ func loadHandlers(r *Rng, pid int, withNew bool) Handlers {
 	}
 	h.Call = genTable(r, []string{"set"}, false)
 	h.Auth = genTable(r, []string{"login"}, false)
+	injectHandlers(r, &h, 12)
 	return h
 }
 
@@ -3111,9 +3357,15 @@ func main() {
 	mountTag := map[int]string{}
 	degTag := map[int]bool{}
 	rootTag := map[int]bool{}
+	lookTag := map[int]bool{}
 	dist := map[string]int{}
 	seq := 0
 	add := func(d desc) {
+		// every family runs under every service configuration {no logger, MemLogger, StdLogger} x {OnError unset, set}
+		if o.Replay == "" && !d.cfgSet {
+			d.Logger = []string{"", "mem", "std"}[seq%3]
+			d.OnError = (seq/3)%2 == 1
+		}
 		ds = append(ds, d)
 		seq++
 	}
@@ -3238,6 +3490,23 @@ func main() {
 		for k := 0; k < 10; k++ {
 			add(malformed(r, *prop, seq, k))
 		}
+		// (b3) the error paths under every service configuration
+		for _, lg := range []string{"", "mem", "std"} {
+			for _, oe := range []bool{false, true} {
+				for k := 0; k < 40; k++ {
+					add(genErrPath(r, *prop, seq, k, lg, oe))
+				}
+			}
+		}
+		// (b4) absent / empty fields next to look-alike data in related fields
+		nlook := 96
+		if o.Tier == "thorough" {
+			nlook = 1200
+		}
+		for k := 0; k < nlook; k++ {
+			lookTag[len(ds)] = true
+			add(genLookalike(r, *prop, seq, k))
+		}
 		// (c0) the root resource of a named service
 		nroot := 72
 		if o.Tier == "thorough" {
@@ -3309,6 +3578,7 @@ func main() {
 		impl = append(impl, optionStream(NewRng(o.Seed*7+3), nopt, dist)...)
 	}
 	for i, d := range ds {
+		dist[fmt.Sprintf("cfg:logger=%s,onerror=%v", d.Logger, d.OnError)]++
 		if crashed[i] {
 			dist["crashed"]++
 			impl = append(impl, ImplViolation{What: "the service process died while handling the request (a panic escaped): " + errTail, Desc: d, Tags: []string{"crash"}})
@@ -3325,9 +3595,11 @@ func main() {
 			impl = append(impl, ImplViolation{What: v, Desc: d, Tags: []string{tag}})
 		}
 		if d.Kind == "flood" {
-			compact := d
-			compact.Reqs, compact.Patterns = nil, nil
 			for j, t := range terms[i] {
+				// stored description: the scenario (regenerated from gen_seed on replay) plus this member's own request
+				compact := d
+				compact.Reqs = nil
+				compact.Req = d.Reqs[j]
 				role := "flooding-request"
 				if j < d.Held {
 					role = "held-request"
@@ -3391,6 +3663,10 @@ func main() {
 		if ne {
 			c.Tags = append(c.Tags, "nil-error")
 		}
+		if lookTag[i] {
+			c.Tags = append(c.Tags, "lookalike-fields")
+			dist["lookalike-fields"]++
+		}
 		if rootTag[i] {
 			c.Tags = append(c.Tags, "root-resource")
 			dist["root-resource"]++
@@ -3406,6 +3682,10 @@ func main() {
 		if be {
 			c.Tags = append(c.Tags, "bad-error-panic")
 			dist["bad-error-panic"]++
+		}
+		if scanMP(scripts...) {
+			c.Tags = append(c.Tags, "marshal-panic")
+			dist["marshal-panic"]++
 		}
 		if scanRT(scripts...) {
 			c.Tags = append(c.Tags, "runtime-error-panic")
@@ -3473,6 +3753,6 @@ func main() {
 			}
 		}
 	}
-	rule := "one request per case against a freshly served res.Service on a recording connection that hands a request to the service once per subscription whose subject matches (scripts of 0-6 actions per handler incl. ParseParams/ParseToken into typed targets, a third of the handler sets built through the Option API (GetModel/GetCollection/GetResource, Set, ...), 150 option lists with conflicts checked against the documented registration panics, panic values incl. real runtime errors: index out of range, nil map write, nil dereference, divide by zero, failed type assertion; product of request type x method case {named,*,none,new with/without New handler,empty} x resource matched/unmatched x handler present/absent x payload {full,partial,empty,{},null,6 undecodable texts} + random shapes + 72 requests to the root resource of a named service (the empty pattern) + malformed subjects + 80 degenerate but deliverable resource names (<service>., <service>..x, trailing dot, dots only, empty; all four types, named and unnamed services) + 2 rounds of 200 concurrent requests over 20 resource patterns, each request on its own resource name with payload values unique to it, handlers yielding before they read, compared per reply subject and per-request handler observations + 2 rounds of 200 requests on patterns with 12 path params routed while 4 goroutines call Service.With / Service.Resource on other names of the same token count (the load rounds have 3 such goroutines too); params and group expected in concurrent cases are derived from the subject with Pattern.Values + payloads that start with a valid JSON value (trailing bytes, two concatenated values, NUL/BOM/whitespace variants; validity judged by json.Valid on the bytes sent) + 126 requests on handler sets with sub-Muxes mounted (Mount/Route, depth 1-2, handlers added before/after mounting) under parent patterns that have placeholders at the mount position: names matching inside a mount, names entering a mount path but matching only a pattern of the parent / of the outer mount, near misses; expected path params and group always derived from subject + full registered pattern, never from the Mux + 6 queue-flood scenarios (in-channel size 1/2/4, 1-2 workers all held in stopped handlers, 40 requests on distinct and repeated resources delivered meanwhile, 6 more after release; thorough also the default 1024/32 with 3000 pending) + same-resource bursts of 65/129/258/300 requests (thorough up to 2049) queued behind a held first request, responses and handler invocations counted per request + 60 overlap pairs: request A stopped inside its handler before (or between two) reads of its fields until request B on another worker group was processed completely, half of them under GOMAXPROCS=1); non-trivial = well-formed request whose pattern carries a non-empty script or whose payload does not decode; distinct by the whole case term"
+	rule := "one request per case against a freshly served res.Service on a recording connection that hands a request to the service once per subscription whose subject matches (scripts of 0-6 actions per handler incl. ParseParams/ParseToken into typed targets, a third of the handler sets built through the Option API (GetModel/GetCollection/GetResource, Set, ...), 150 option lists with conflicts checked against the documented registration panics, panic values incl. real runtime errors: index out of range, nil map write, nil dereference, divide by zero, failed type assertion; product of request type x method case {named,*,none,new with/without New handler,empty} x resource matched/unmatched x handler present/absent x payload {full,partial,empty,{},null,6 undecodable texts} + random shapes + 72 requests to the root resource of a named service (the empty pattern) + malformed subjects + 80 degenerate but deliverable resource names (<service>., <service>..x, trailing dot, dots only, empty; all four types, named and unnamed services) + 2 rounds of 200 concurrent requests over 20 resource patterns, each request on its own resource name with payload values unique to it, handlers yielding before they read, compared per reply subject and per-request handler observations + 2 rounds of 200 requests on patterns with 12 path params routed while 4 goroutines call Service.With / Service.Resource on other names of the same token count (the load rounds have 3 such goroutines too); params and group expected in concurrent cases are derived from the subject with Pattern.Values + payloads that start with a valid JSON value (trailing bytes, two concatenated values, NUL/BOM/whitespace variants; validity judged by json.Valid on the bytes sent) + 126 requests on handler sets with sub-Muxes mounted (Mount/Route, depth 1-2, handlers added before/after mounting) under parent patterns that have placeholders at the mount position: names matching inside a mount, names entering a mount path but matching only a pattern of the parent / of the outer mount, near misses; expected path params and group always derived from subject + full registered pattern, never from the Mux + 6 queue-flood scenarios (in-channel size 1/2/4, 1-2 workers all held in stopped handlers, 40 requests on distinct and repeated resources delivered meanwhile, 6 more after release; thorough also the default 1024/32 with 3000 pending) + same-resource bursts of 65/129/258/300 requests (thorough up to 2049) queued behind a held first request, responses and handler invocations counted per request + every family under the service configurations {no logger, MemLogger, StdLogger} x {OnError unset, set} and 240 error-path cases (40 per configuration) + values whose MarshalJSON panics (runtime error / string / error / *Error) in OK, Model, Collection, Query*, event and token-event positions of non-get handlers and as Data of *Error values (panicked, passed to Error, returned through RequireValue) + 96 payloads with absent or empty host/remoteAddr/uri/query/cid next to look-alike header, token and params entries + 60 overlap pairs: request A stopped inside its handler before (or between two) reads of its fields until request B on another worker group was processed completely, half of them under GOMAXPROCS=1); non-trivial = well-formed request whose pattern carries a non-empty script or whose payload does not decode; distinct by the whole case term"
 	Emit(o, *prop, "From GoRes Require Import Run.Run_"+*prop+".", "rcase", rule, cases, dist, map[string]interface{}{"children_crashed": dist["crashed"], "racing_lookups_made": totalLookups}, impl, 250)
 }
